@@ -51,7 +51,7 @@ impl Check for C12 {
         "C12"
     }
     fn rule(&self) -> &'static str {
-        "case = one configuration (mode graph with lookaheads), 2-3 inputs, up to 2 scanners obtained with build() (same cache entry) and up to 4 live iterators; an interleaved history of create(scanner, input) | next(i) | peek_n(i, n) | set_mode(i, m) | set_offset(i, o) | drop(i) | Scanner::set_mode(s, m); oracle = for each iterator its own sub-history is replayed alone on a scanner from build_uncached() and every observation (tokens, peek results, current_mode after each call) must be identical; non-trivial = two iterators alive at the same time with interleaved next calls on different inputs or in different modes"
+        "case = one configuration (mode graph with lookaheads), 2-3 inputs, up to 2 scanners obtained with build() (same cache entry) and up to 4 live iterators; an interleaved history of create(scanner, input) | next(i) | peek_n(i, n) | set_mode(i, m) | set_offset(i, o) | drop(i) | Scanner::set_mode(s, m); oracle = for each iterator its own sub-history is replayed alone on a scanner from build_uncached() and every observation (tokens, peek results, current_mode after each call) must be identical, and a second isolated replay without the peeks must give the same non-peek observations; non-trivial = two iterators alive at the same time with interleaved next calls on different inputs or in different modes"
     }
     fn cases(&self, thorough: bool) -> usize {
         if thorough {
@@ -242,6 +242,37 @@ impl Check for C12 {
                 Err(p) => return Err(Failure::panic("c12.panic", "isolated replay panicked", p)),
                 Ok(Err(f)) => return Err(f),
                 Ok(Ok(())) => {}
+            }
+            // "unaffected ... by peeks": the same calls without the peeks observe the same
+            if log.iter().any(|(op, _)| matches!(op, Op::PeekN { .. })) {
+                let r = guard(|| -> Result<(), Failure> {
+                    let fresh = case
+                        .build_uncached()
+                        .map_err(|e| Failure::new("c12.build", format!("build_uncached failed: {}", e)))?;
+                    let mut it = fresh.find_iter(inp);
+                    for (i, (op, seen)) in log.iter().enumerate() {
+                        if matches!(op, Op::PeekN { .. }) {
+                            continue;
+                        }
+                        let alone = apply(&mut it, op).unwrap();
+                        if &alone != seen {
+                            return Err(Failure::new(
+                                "c12.peeks",
+                                format!(
+                                    "iterator {} (input {:?}): call {} = {:?} observed something else than the same history without its peeks",
+                                    k, inp, i, op
+                                ),
+                            )
+                            .exp_obs(alone, seen));
+                        }
+                    }
+                    Ok(())
+                });
+                match r {
+                    Err(p) => return Err(Failure::panic("c12.panic", "peek-free replay panicked", p)),
+                    Ok(Err(f)) => return Err(f),
+                    Ok(Ok(())) => st.count("peek_free_replays"),
+                }
             }
         }
         Ok(st)
